@@ -453,6 +453,21 @@ func c04Facts(repo string, w *strings.Builder) error {
 	fmt.Fprintf(w, "def guardStart : List String := %s\n", leanStrList(guardStart))
 	fmt.Fprintf(w, "def guardPart : List String := %s\n", leanStrList(guardPart))
 	fmt.Fprintf(w, "def guardBody : List String := %s\n", leanStrList(guardBody))
+	// ---------------- (4) option parameters of the entry points
+	opts, err := c04EntryOptions(repo)
+	if err != nil {
+		return err
+	}
+	w.WriteString("\n/-- exported entry points of translate / pgsql format / cypher format: every parameter (entry, name, type), every exported\nfield of the option-carrying structs and every parameter of their With… methods -/\n")
+	w.WriteString("def entryOptions : List (String × String × String) := [\n")
+	for i, o := range opts {
+		sep := ","
+		if i == len(opts)-1 {
+			sep = ""
+		}
+		fmt.Fprintf(w, "  (%s, %s, %s)%s\n", leanStr(o[0]), leanStr(o[1]), leanStr(o[2]), sep)
+	}
+	w.WriteString("]\n")
 	w.WriteString("\nend Dawgs.Generated.C04Sites\n")
 	return nil
 }
@@ -538,6 +553,74 @@ func c04Guard(dir string) (start, part, body []string, err error) {
 		return nil, nil, nil, fmt.Errorf("query/v2: symbol guard functions not found (%d of 3)", found)
 	}
 	return start, part, body, nil
+}
+
+// c04EntryOptions lists the parameters of the exported functions of the three packages through which a query becomes SQL
+// text, the exported fields of OutputBuilder / Emitter and the parameters of their exported methods named With….
+func c04EntryOptions(repo string) ([][3]string, error) {
+	var out [][3]string
+	for _, pk := range []struct{ dir, name string }{
+		{"cypher/models/pgsql/translate", "translate"},
+		{"cypher/models/pgsql/format", "format"},
+		{"cypher/models/cypher/format", "cypherformat"},
+	} {
+		fset, files, err := parseDir(filepath.Join(repo, filepath.FromSlash(pk.dir)))
+		if err != nil {
+			return nil, err
+		}
+		entry := map[string]bool{
+			"translate.FromCypher": true, "translate.Translate": true, "translate.Translated": true, "translate.NewTranslator": true,
+			"format.NewOutputBuilder": true, "format.Statement": true, "format.Expression": true, "format.SyntaxNode": true,
+			"cypherformat.NewCypherEmitter": true, "cypherformat.RegularQuery": true,
+		}
+		optStructs := map[string]bool{"format.OutputBuilder": true, "cypherformat.Emitter": true}
+		for _, f := range files {
+			for _, d := range f.Decls {
+				switch x := d.(type) {
+				case *ast.FuncDecl:
+					name := pk.name + "." + x.Name.Name
+					recv := recvType(x)
+					isWith := recv != "" && optStructs[pk.name+"."+recv] && strings.HasPrefix(x.Name.Name, "With")
+					if (x.Recv == nil && entry[name]) || isWith {
+						if isWith {
+							name = pk.name + "." + recv + "." + x.Name.Name
+						}
+						if x.Type.Params != nil {
+							for _, fl := range x.Type.Params.List {
+								t := c04Print(fset, fl.Type)
+								for _, n := range fl.Names {
+									out = append(out, [3]string{name, n.Name, t})
+								}
+							}
+						}
+					}
+				case *ast.GenDecl:
+					for _, sp := range x.Specs {
+						ts, ok := sp.(*ast.TypeSpec)
+						if !ok || !optStructs[pk.name+"."+ts.Name.Name] {
+							continue
+						}
+						if st, ok := ts.Type.(*ast.StructType); ok {
+							for _, fl := range st.Fields.List {
+								for _, n := range fl.Names {
+									if ast.IsExported(n.Name) {
+										out = append(out, [3]string{pk.name + "." + ts.Name.Name, n.Name, c04Print(fset, fl.Type)})
+									}
+								}
+							}
+						}
+					}
+				}
+			}
+		}
+	}
+	sort.Slice(out, func(i, j int) bool {
+		if out[i][0] != out[j][0] {
+			return out[i][0] < out[j][0]
+		}
+		return out[i][1] < out[j][1]
+	})
+	return out, nil
 }
 
 // c04ConstArg: literals, the predeclared constants and negative numbers carry no user text.
